@@ -108,7 +108,7 @@ def rule_names(ctx: Ctx) -> None:
             return t.id
         return canon(cd.expand(t, at, depth=3, stop=("cfg", step)))
 
-    ifs = [s for s in body if isinstance(s, ast.If) and "split" in src(s.test)]
+    ifs = [s for s in body if isinstance(s, ast.If) and "split" in src(s)]
     ok = False
     if ifs and len(ifs[0].body) == 1 and isinstance(ifs[0].body[0], ast.Assign) and not ifs[0].orelse:
         tgt = npath(ifs[0].body[0].targets[0], ifs[0].body[0])  # the configuration entry itself, or a local stored into it afterwards
@@ -116,13 +116,13 @@ def rule_names(ctx: Ctx) -> None:
         ok = (
             bool(init)
             and canon(init[-1].value) == "''"
-            and equivalent(boolform(ifs[0].test), boolform(_e(f"len({step}.split('.')) == 2"))) is None
-            and canon(ifs[0].body[0].value) == canon(_e(f"'.' + {step}.split('.')[1]"))
+            and equivalent(boolform(ifs[0].test), boolform(_e(f"'.' in {step}"))) is None
+            and canon(ifs[0].body[0].value) == canon(_e(f"'.' + {step}.split('.', 1)[1]"))
         )
         if tgt != entry:
             fin = [s for s in body if isinstance(s, ast.Assign) and npath(s.targets[0], s) == entry and s.lineno > ifs[0].lineno]
             ok = ok and len(fin) == 1 and canon(fin[0].value) == tgt
-    ctx.ob("C12.NAMES", SM, ifs[0] if ifs else cb, "cost_volume_confidence_run: indicator suffix '' or '.' + second part of the step name", ok, expected=f"'' ; if len({step}.split('.')) == 2: '.' + {step}.split('.')[1]", detail="several confidence steps are told apart by the suffix of their step name")
+    ctx.ob("C12.NAMES", SM, ifs[0] if ifs else cb, "cost_volume_confidence_run: indicator suffix '' or '.' + everything after the first dot of the step name", ok, expected=f"'' ; if '.' in {step}: '.' + {step}.split('.', 1)[1]", detail="several confidence steps are told apart by the suffix of their step name; the suffix may itself contain dots (`cost_volume_confidence.v1.2`): taking it only when the name has exactly two parts gives such a step the un-suffixed band name, a duplicate")
     k = rule_mirror(ctx, "C12.MIRROR", only=["cost_volume_confidence_run"])
     ctx.floor("C12.MIRROR", k, 1)
 
@@ -155,6 +155,10 @@ def rule_kernels(ctx: Ctx) -> None:
     ibp = tree.func(IB, "IntervalBounds.confidence_prediction")
     tf = [s for s in stmts_of(ibp) if isinstance(s, ast.If) and "type_measure" in src(s.test)]
     ok = bool(tf) and equivalent(boolform(tf[0].test), boolform(_e("cv.attrs['type_measure'] == 'min'"))) is None and canon(tf[0].body[0].value) == "-1" and canon(tf[0].orelse[0].value) == "1"
+    for rel_m, qm in ((AMB, "Ambiguity.confidence_prediction"), (RSK, "Risk.confidence_prediction")):
+        fm = tree.func(rel_m, qm)
+        reads = [n for n in ast.walk(fm) if isinstance(n, ast.Constant) and n.value == "type_measure"]
+        ctx.ob("C12.TYPE-FACTOR", rel_m, fm, f"{qm} takes the type of measure into account", bool(reads), expected="the pixel's *best* cost: the minimum for 'min' measures, the maximum for 'max' measures (e.g. costs negated when cv.attrs['type_measure'] == 'max')", detail="the kernels always count / spread the disparities whose cost is within eta of the pixel's *minimum*: for a similarity measure (zncc) the bands describe the worst candidate instead of the best")
     ctx.ob("C12.TYPE-FACTOR", IB, tf[0] if tf else ibp, "interval bounds: type_factor = -1 for 'min' measures, +1 otherwise", ok, detail="the possibility of a disparity grows when its cost gets better: the sign must follow the type of measure")
     k = tree.func(IB, "IntervalBounds.compute_interval_bounds")
     d = Defs(k)
@@ -239,10 +243,11 @@ SPEC = PropSpec(
 )
 
 MUTANTS = [
+    {"id": "dotted-suffix-dropped", "file": SM, "old": '        if "." in input_step:\n            cfg["pipeline"][input_step]["indicator"] = "." + input_step.split(".", 1)[1]\n', "new": '        if len(input_step.split(".")) == 2:\n            cfg["pipeline"][input_step]["indicator"] = "." + input_step.split(".")[1]\n'},
     {"id": "overwrite-last-band", "file": CVC, "old": "conf_measure = np.full((nb_row, nb_col, nb_indicator + 1), np.nan, dtype=np.float32)", "new": "conf_measure = np.full((nb_row, nb_col, nb_indicator), np.nan, dtype=np.float32)", "count": 2},
     {"id": "drop-old-band-copy", "file": CVC, "old": '                conf_measure[:, :, :-1] = cv["confidence_measure"].data\n', "new": ""},
     {"id": "prefix-confidence_", "file": CVC, "old": 'name_confidence_measure = "confidence_from_" + name_confidence_measure', "new": 'name_confidence_measure = "confidence_" + name_confidence_measure'},
-    {"id": "suffix-from-first-part", "file": SM, "old": 'cfg["pipeline"][input_step]["indicator"] = "." + input_step.split(".")[1]', "new": 'cfg["pipeline"][input_step]["indicator"] = "." + input_step.split(".")[0]'},
+    {"id": "suffix-from-first-part", "file": SM, "old": 'cfg["pipeline"][input_step]["indicator"] = "." + input_step.split(".", 1)[1]', "new": 'cfg["pipeline"][input_step]["indicator"] = "." + input_step.split(".")[0]'},
     {"id": "risk-min-under-max-name", "file": RSK, "old": "disp, cv = self.allocate_confidence_map(self._indicator_max, risk_max, disp, cv)", "new": "disp, cv = self.allocate_confidence_map(self._indicator_max, risk_min, disp, cv)"},
     {"id": "ambiguity-writes-cv", "file": AMB, "old": "        disp, cv = self.allocate_confidence_map(self._indicator, ambiguity, disp, cv)", "new": '        cv["cost_volume"].data[np.isnan(cv["cost_volume"].data)] = 0\n        disp, cv = self.allocate_confidence_map(self._indicator, ambiguity, disp, cv)'},
     {"id": "one-minus-quantile-on-both", "file": IT, "old": "            agg_sup, quantile\n", "new": "            agg_sup, 1 - quantile\n"},
